@@ -1,6 +1,7 @@
 import ChythonModel.Proofs.C01Total
 import ChythonModel.Proofs.C01Chiral
 import ChythonModel.Proofs.C01Check
+import ChythonModel.Proofs.C01Rename
 /-!
 # C01 — canonical SMILES, equality and hash depend on structure only
 
@@ -279,6 +280,20 @@ theorem chiral_morgan_equivariant_of_inequivalent_centres (h : TupleHash) (singl
   cases he with
   | some hrr => exact .ranks hrr
 
+open ChythonModel.Model.ChiralMorgan in
+/-- **the stereo-aware classes never depend on the atom numbers** — including the R/S-pair branch of `__differentiation`
+    for equivalent centres: renaming every atom by an injective `π` (insertion orders and stored label signs kept, which is
+    what `Graph.remap` does) renames the result, as the *same dict* (equal lists, order included), for every hash function. -/
+theorem chiral_morgan_renaming_equivariant (h : TupleHash) (single : Nat → Bool) {π : Nat → Nat}
+    (hπ : Function.Injective π) (m : MolView) (labels : List (Nat × Bool)) :
+    chiralMorgan h single (renMol π m) (mapKeys π labels) = renOutcome π (chiralMorgan h single m labels) :=
+  chiralMorgan_rename h single hπ m labels
+
+/-- the same for `atoms_order`, as exact dicts (the permutation-level statement is `atoms_order_equivariant`) -/
+theorem atoms_order_renaming_exact (h : TupleHash) {π : Nat → Nat} (hπ : Function.Injective π) (m : MolView) :
+    atomsOrder h (renMol π m) = (atomsOrder h m).map (mapKeys π) :=
+  atomsOrder_rename h hπ m
+
 /-! ## no exception on well-formed input; `Element.__hash__` never hashes `None` -/
 
 /-- (regenerated table) every optional attribute in `Element.__hash__` is written `… or 0` -/
@@ -465,6 +480,24 @@ def exS : MolView :=
 example : InequivalentCentres toyHash (fun _ => true) exS [(2, true)] [(1, 1), (3, 2), (4, 3), (2, 4)] := by
   refine ⟨by decide, by decide, by decide +kernel, [1, 2], [(2, [1, 3, 4])], by decide +kernel, by decide +kernel,
     by decide, fun _ => 4, by decide, by decide⟩
+
+/-- butane-2,3-diol C1–C2(O5)–C3(O6)–C4 with labels on both centres -/
+def exMeso : MolView :=
+  ⟨[(1, { z := 6, implH := some 3 }), (2, { z := 6, implH := some 1 }), (3, { z := 6, implH := some 1 }),
+    (4, { z := 6, implH := some 3 }), (5, { z := 8, implH := some 1 }), (6, { z := 8, implH := some 1 })],
+   [(1, [(2, ⟨1, none⟩)]), (2, [(1, ⟨1, none⟩), (3, ⟨1, none⟩), (5, ⟨1, none⟩)]),
+    (3, [(2, ⟨1, none⟩), (4, ⟨1, none⟩), (6, ⟨1, none⟩)]), (4, [(3, ⟨1, none⟩)]), (5, [(2, ⟨1, none⟩)]),
+    (6, [(3, ⟨1, none⟩)])]⟩
+
+/-- the R/S-pair branch is really executed: opposite configurations split every class of the molecule … -/
+example : ChiralMorgan.chiralMorgan toyHash (fun _ => true) exMeso [(2, true), (3, true)] =
+    .ranks [(4, 1), (1, 2), (6, 3), (5, 4), (3, 5), (2, 6)] := by decide +kernel
+/-- … equal configurations leave `atoms_order` as it is … -/
+example : ChiralMorgan.chiralMorgan toyHash (fun _ => true) exMeso [(2, true), (3, false)] =
+    .ranks [(1, 1), (4, 1), (5, 2), (6, 2), (2, 3), (3, 3)] := by decide +kernel
+/-- … and the renamed molecule gives the renamed result -/
+example : ChiralMorgan.chiralMorgan toyHash (fun _ => true) (renMol (· + 10) exMeso) [(12, true), (13, true)] =
+    .ranks [(14, 1), (11, 2), (16, 3), (15, 4), (13, 5), (12, 6)] := by decide +kernel
 
 /-- the hypothesis of `smiles_invariant_of_discrete_partial` is satisfiable: a (toy) writer that prints an
     order-independent digest of the rank-keyed molecule -/
